@@ -261,6 +261,13 @@ pub fn c18(cx: &Ctx) -> (Vec<Violation>, Cover) {
         let sig: String = short.chars().map(|c| if c.is_ascii_digit() { '#' } else { c }).collect();
         v.push(Violation::new("C18", format!("C18/panic/{sig}"), format!("panic in op {op}: {msg}"), a.end_pos));
     }
+    // `EntityLocal` panics inside a reaction that was already scheduled for an entity which was despawned before the
+    // reaction ran (the harness body catches the panic and records "no local data"; the classification is C16's)
+    for viol in super::values::c16(cx).0 {
+        if viol.sig == "C16/entity-local-unavailable/entity-despawned-while-reaction-pending" {
+            v.push(Violation::new("C18", "C18/entity-local-panics/entity-despawned-while-reaction-pending", viol.msg, viol.pos));
+        }
+    }
     // stale operations
     for d in cx.dels.iter() {
         if d.target_dead {
